@@ -792,14 +792,14 @@ Proof.
 Qed.
 
 (* ---------------------------------------------------------------- the need_override wakeup of a push (no MAKE_DIRTY) *)
-Lemma step_pr_probe ina rb s t q s' : Inv ina s -> pcs s t = PR_probe q -> gstep rb s t = Some s' -> Inv ina s'.
+Lemma step_oprobe ina rb s t q s' : Inv ina s -> pcs s t = PA_oprobe q -> gstep rb s t = Some s' -> Inv ina s'.
 Proof.
   intros I Hpc B. unfold gstep in B. rewrite Hpc in B. injection B as <-.
   pose proof (qos_in_range ina s t q I) as Q. rewrite Hpc in Q. specialize (Q eq_refl).
   destruct (lst s) eqn:L; move_tac Hpc.
 Qed.
 
-Lemma step_pr_wake ina rb s t q s' : Inv ina s -> valid_tid t -> pcs s t = PR_wake q -> gstep rb s t = Some s' -> Inv ina s'.
+Lemma step_owake ina rb s t q s' : Inv ina s -> valid_tid t -> pcs s t = PA_owake q -> gstep rb s t = Some s' -> Inv ina s'.
 Proof.
   intros I Vt Hpc B. pose proof I as [(r & A & Bv & C & D) T]. unfold gstep in B. rewrite Hpc in B.
   assert (NL : lockh s <> Some t) by (apply (not_holder_lock s t (T t)); rewrite Hpc; reflexivity).
@@ -835,7 +835,8 @@ Proof.
     assert (O : f_owner r = 0).
     { apply orb_true_iff in C4. destruct C4 as [C4|C4]; [apply Z.eqb_eq in C4; exact C4 | apply Z.leb_le in C4; lia]. }
     pose proof (lockh_none_of_free s r A O) as LN.
-    rewrite F4, C2. subst e'. cbn [Z.eqb xorb]. split.
+    assert (Xb : xorb (f_enq r =? 1) (f_enq r' =? 1) = true) by (rewrite F4, C2; reflexivity). rewrite Xb. clear Xb. cbv iota.
+    split.
     + exists r'. split.
       * unfold inflight in *. rewrite LN in *. constructor; sproj; try assumption; try lia.
         -- rewrite F4. split; [discriminate | reflexivity].
@@ -851,7 +852,7 @@ Proof.
       * apply (thread_other s _ t u N (T u)); sproj; [apply upd_other; exact N | try other_iffs N ..].
   - (* only the max-qos merge *)
     assert (Ee : f_enq r' = f_enq r) by (rewrite F4; subst e'; exact M3).
-    rewrite Ee. rewrite xorb_nilpotent. split.
+    rewrite Ee. rewrite xorb_nilpotent. cbv iota. split.
     + exists r'. split.
       * unfold inflight in *. constructor; sproj; try assumption; try lia.
         -- rewrite Ee. exact Genq.
